@@ -8,7 +8,7 @@ from penman.tree import Tree
 
 from pv.gen import trees
 from pv.gen.base import strings as str_atoms, symbols
-from pv.harness import Hyp
+from pv.harness import Enum, Hyp
 from pv.props.common import short
 from pv.ref import interp
 from pv.ref import lex as rlex
@@ -130,5 +130,18 @@ def _cases(draw):
     return case
 
 
+def _long_chunks(tier):
+    return [{'n': n, 'v': v} for n in (190, 193, 257, 400, 1100) for v in range(4)]
+
+
+def _long_cases(ch):
+    n, v = ch['n'], ch['v']
+    tg = ['b', '"s t"', '1,000', '"a,b"', 'c', '"(x)"', '-']
+    ts = [['a%d' % (i % 7), [':ARG0', ':op1', 'instance', ':r-of'][i % 4], tg[(i * 3 + v) % len(tg)]] for i in range(n)]
+    yield {'triples': ts, 'choices': [[0, 1, 2, 3, 4, 5][(v + j) % 6] for j in range(7)]}
+    yield {'triples': ts, 'choices': [v + 2, 0]}
+
+
 def stages(tier):
-    return [Hyp('random', _cases, 6000, 200000)]
+    return [Hyp('random', _cases, 6000, 200000),
+            Enum('long-lists', _long_chunks, _long_cases, 'lists of 190 .. 1100 triples, each re-spelled under four fixed mixtures of the spacing variants')]
